@@ -267,9 +267,16 @@ fn gen_calls(rng: &mut Rng, dir: &std::path::Path) -> Vec<Call> {
             7 | 8 => Call::EnvRemove(gen_key(rng, &mut pool)),
             9 => Call::EnvClear,
             10 => {
-                let d = dir.join(format!("wd{}", rng.below(3)));
-                let _ = std::fs::create_dir_all(&d);
-                Call::Cwd(d)
+                if rng.chance(400) {
+                    // relative: meant from the caller's own working directory, whatever was set before
+                    let name = format!("c16-rel-{}", rng.below(3));
+                    let _ = std::fs::create_dir_all(std::env::current_dir().unwrap().join(&name));
+                    Call::Cwd(PathBuf::from(if rng.chance(300) { ".".to_string() } else { name }))
+                } else {
+                    let d = dir.join(format!("wd{}", rng.below(3)));
+                    let _ = std::fs::create_dir_all(&d);
+                    Call::Cwd(d)
+                }
             }
             11 => Call::Stdin(gen_stream(rng, true)),
             12 => Call::Stdout(gen_stream(rng, false)),
@@ -278,6 +285,21 @@ fn gen_calls(rng: &mut Rng, dir: &std::path::Path) -> Vec<Call> {
             _ => Call::CloneSwitch,
         };
         v.push(c);
+    }
+    // once in a while a value carries a NUL byte: such a command cannot be expressed to the operating system and must be
+    // refused when it is run - never run in a shortened form
+    if rng.chance(60) && !v.is_empty() {
+        let at = rng.below(v.len() as u64) as usize;
+        let nul = |mut b: Vec<u8>, rng: &mut Rng| {
+            let pos = if b.is_empty() { 0 } else { rng.below(b.len() as u64 + 1) as usize };
+            b.insert(pos, 0);
+            b
+        };
+        v[at] = match v[at].clone() {
+            Call::Arg(a) => Call::Arg(nul(a, rng)),
+            Call::Env(k, val) => Call::Env(k, nul(val, rng)),
+            other => other,
+        };
     }
     v
 }
@@ -471,6 +493,16 @@ fn seq_case(ctx: &mut Ctx, rng: &mut Rng, i: u64) {
     }
     if let Some(c) = &m.cert {
         ctx.inconclusive("terminator blocked (not a C16 matter)", run::cert_json(c));
+        run::end_case();
+        return;
+    }
+    let has_nul = model.args.iter().any(|a| a.contains(&0)) || model.final_env().iter().any(|(k, v)| k.contains(&0) || v.contains(&0));
+    if has_nul {
+        ctx.count("commands_with_a_NUL_byte_in_a_value", 1);
+        let ran = spawn::get_report(&exe, 300).is_some();
+        if !matches!(m.result, Some(Err(_))) || ran {
+            ctx.violation(&format!("C16/nul-not-refused/{}", term), "a value of the command contains a NUL byte; instead of being refused the command was run (in a shortened form)", wit(&trace, J::s(&format!("{:?} ran={}", m.result, ran))));
+        }
         run::end_case();
         return;
     }
